@@ -84,7 +84,7 @@ def run(ck):
     with open(tr, "a") as f:
         f.write(open(trs).read())
     lines = open(tr).read().splitlines()
-    gated = [json.loads(l) for l in lines if json.loads(l)["mode"] != "stress"]
+    gated = [json.loads(l) for l in lines if json.loads(l)["mode"] not in ("stress", "lookup")]
     taken = sum(g["taken"] for g in gated)
     if taken < 3 * len(gated):
         raise Infra("dead driver: race schedules took %d gate steps" % taken)
@@ -97,6 +97,9 @@ def run(ck):
     for b in rt.printed("@BAD"):
         rec = b["rec"]
         key = "C05:race:%s:%s" % (rec["mode"], " ".join(rec["schedule"]))
+        if rec["mode"] == "lookup":
+            ck.violation("C05:race:lookup-misses-the-live-successor", "a retired stream was unregistered while the path was looked up: a lookup did not return the live successor, or Count was not 1 (round %s; live=%s closed=%s)" % (" ".join(rec["schedule"]), rec["live"], rec["closed"]), rec)
+            continue
         ck.violation(key, "two concurrent %s on one path, schedule %s: mapped=%s live=%s closed=%s (exactly one live stream expected)" % (
             rec["mode"], " ".join(rec["schedule"]), rec["mapped"], rec["live"], rec["closed"]), rec)
     ck.sample({"race": json.loads(lines[len(lines) // 2])})
